@@ -30,6 +30,21 @@ Fixpoint norm_into (es : list (str * tval)) (ks : kidsT) : kidsT :=
   match es with [] => ks | (n, tv) :: r => norm_into r (addv n tv ks) end.
 Definition norm (es : list (str * tval)) : kidsT := norm_into es [].
 
+(* how deep the objects of a written tree are nested: an object is one level more than its deepest child *)
+Fixpoint vdepth (tv : tval) : nat :=
+  match tv with
+  | TObj es => S ((fix go (l : list (str * tval)) : nat :=
+                     match l with [] => O | (_, tv') :: r => Nat.max (vdepth tv') (go r) end) es)
+  | _ => O
+  end.
+Fixpoint tdepth (es : list (str * tval)) : nat :=
+  match es with [] => O | (_, tv) :: r => Nat.max (vdepth tv) (tdepth r) end.
+
+Lemma vdepth_obj es : vdepth (TObj es) = S (tdepth es).
+Proof.
+  reflexivity.
+Qed.
+
 Lemma addv_obj n es kids : addv n (TObj es) kids = upsert n 3 (fun _ => VObj (norm_into es (old_of n kids))) kids.
 Proof. reflexivity. Qed.
 
@@ -256,15 +271,15 @@ Qed.
 
 Lemma entry_rbody_read :
   (forall n tv t, rentry n tv t ->
-     forall fuel top g rest kids, gap false g -> nonul n -> wfv tv -> length (g ++ t ++ rest) < fuel ->
-       entry fuel top (g ++ t ++ rest) kids = inr (addv n tv kids, rest)) /\
+     forall fuel d g rest kids, gap false g -> nonul n -> wfv tv -> d + vdepth tv <= max_depth -> length (g ++ t ++ rest) < fuel ->
+       entry fuel d (g ++ t ++ rest) kids = inr (addv n tv kids, rest)) /\
   (forall es t, rbody es t ->
-     forall f fu rest ks, wf es -> length (t ++ rest) < f -> length (t ++ rest) < fu ->
-       body_of (entry f false) (S f) fu (t ++ rest) ks = inr (norm_into es ks, rest)).
+     forall f d fu rest ks, wf es -> d + tdepth es <= max_depth -> length (t ++ rest) < f -> length (t ++ rest) < fu ->
+       body_of (entry f d) (S f) fu (t ++ rest) ks = inr (norm_into es ks, rest)).
 Proof.
   apply rentry_rbody_min.
   - (* string *)
-    intros n v g2 g3 Hg2 Hg3 fuel top g rest kids Hg Hn Hv Hl. inversion Hv; subst.
+    intros n v g2 g3 Hg2 Hg3 fuel d g rest kids Hg Hn Hv Hd Hl. inversion Hv; subst.
     destruct fuel as [|f]; [lia|]. rewrite entry_S. unfold entry_step.
     nrm.
     rewrite pstring_gap_quote by assumption. cbv beta iota.
@@ -274,7 +289,7 @@ Proof.
     rewrite ws_gap_tok by (trivial; try reflexivity; len). tokc.
     rewrite tail_semi0. reflexivity.
   - (* host and service *)
-    intros n h s g2 g3 g4 Hg2 Hg3 Hg4 fuel top g rest kids Hg Hn Hv Hl. inversion Hv; subst.
+    intros n h s g2 g3 g4 Hg2 Hg3 Hg4 fuel d g rest kids Hg Hn Hv Hd Hl. inversion Hv; subst.
     destruct fuel as [|f]; [lia|]. rewrite entry_S. unfold entry_step.
     nrm.
     rewrite pstring_gap_quote by assumption. cbv beta iota.
@@ -285,7 +300,7 @@ Proof.
     rewrite pstring_q by assumption. cbv beta iota.
     rewrite tail_semi by (trivial; len). reflexivity.
   - (* list *)
-    intros n l g2 t g3 Hg2 Hr Hg3 fuel top g rest kids Hg Hn Hv Hl. inversion Hv; subst.
+    intros n l g2 t g3 Hg2 Hr Hg3 fuel d g rest kids Hg Hn Hv Hd Hl. inversion Hv; subst.
     destruct fuel as [|f]; [lia|]. rewrite entry_S. unfold entry_step.
     nrm.
     rewrite pstring_gap_quote by assumption. cbv beta iota.
@@ -293,50 +308,53 @@ Proof.
     rewrite (plist_items l t Hr) by (trivial; len). cbv beta iota. cbn [rev app].
     rewrite tail_semi by (trivial; len). reflexivity.
   - (* object *)
-    intros n es g2 t g3 Hg2 Hr IH Hg3 fuel top g rest kids Hg Hn Hv Hl. inversion Hv; subst.
+    intros n es g2 t g3 Hg2 Hr IH Hg3 fuel d g rest kids Hg Hn Hv Hd Hl. inversion Hv; subst.
+    rewrite vdepth_obj in Hd.
     destruct fuel as [|f]; [lia|]. rewrite entry_S. unfold entry_step.
     nrm.
     rewrite pstring_gap_quote by assumption. cbv beta iota.
     rewrite ws_gap_tok by (trivial; try reflexivity; len). tokc.
+    replace (Nat.leb max_depth d) with false by (symmetry; apply Nat.leb_gt; lia). cbv beta iota.
     rewrite IH by (trivial; len). cbv beta iota.
     rewrite tail_semi by (trivial; len). rewrite addv_obj. reflexivity.
   - (* end of object *)
-    intros g Hg f fu rest ks Hw Hf Hfu.
+    intros g Hg f d fu rest ks Hw Hd Hf Hfu.
     destruct fu as [|fu]; [lia|]. rewrite body_of_S. nrm.
     rewrite ws_gap_tok by (trivial; try reflexivity; len). tokc. reflexivity.
   - (* entry inside an object *)
-    intros g n tv t es t' Hg Hr IHe Hb IHb f fu rest ks Hw Hf Hfu. inversion Hw; subst.
+    intros g n tv t es t' Hg Hr IHe Hb IHb f d fu rest ks Hw Hd Hf Hfu. inversion Hw; subst.
+    cbn [tdepth] in Hd.
     destruct fu as [|fu]; [lia|]. rewrite body_of_S. rewrite <- !app_assoc in *.
     destruct (rentry_head _ _ _ Hr) as [t0 ->]. cbn [app] in *.
     rewrite ws_gap_tok by (trivial; try reflexivity; len). tokc.
-    assert (X := IHe f false [] (t' ++ rest) ks (gap_nil _)). cbn [app] in X.
+    assert (X := IHe f d [] (t' ++ rest) ks (gap_nil _)). cbn [app] in X.
     rewrite X by (trivial; len). cbv beta iota.
     apply IHb; trivial; len.
 Qed.
 
-Theorem entry_read n tv t fuel top g rest kids :
-  rentry n tv t -> gap false g -> nonul n -> wfv tv -> length (g ++ t ++ rest) < fuel ->
-  entry fuel top (g ++ t ++ rest) kids = inr (addv n tv kids, rest).
+Theorem entry_read n tv t fuel d g rest kids :
+  rentry n tv t -> gap false g -> nonul n -> wfv tv -> d + vdepth tv <= max_depth -> length (g ++ t ++ rest) < fuel ->
+  entry fuel d (g ++ t ++ rest) kids = inr (addv n tv kids, rest).
 Proof. intros H. apply (proj1 entry_rbody_read); exact H. Qed.
 
 Lemma entries_S_ne f s kids : s <> [] ->
-  entries (S f) s kids = match entry (S f) true s kids with inl e => inl e | inr (k', r) => entries f r k' end.
+  entries (S f) s kids = match entry (S f) 0 s kids with inl e => inl e | inr (k', r) => entries f r k' end.
 Proof. intros H. destruct s; [congruence|reflexivity]. Qed.
 
 (* B, explicit fuel: any amount of fuel that is at least length + 2 *)
 Theorem entries_read es t : rfile es t ->
-  forall fuel kids, wf es -> length t + 2 <= fuel -> entries fuel t kids = inr (norm_into es kids).
+  forall fuel kids, wf es -> tdepth es <= max_depth -> length t + 2 <= fuel -> entries fuel t kids = inr (norm_into es kids).
 Proof.
-  induction 1 as [g Hg|g n tv t es t' Hg Hr Hf IH]; intros fuel kids Hw Hl.
+  induction 1 as [g Hg|g n tv t es t' Hg Hr Hf IH]; intros fuel kids Hw Hd Hl.
   - destruct fuel as [|f]; [lia|]. rewrite entries_S. destruct g as [|c g]; [reflexivity|].
     rewrite entry_S. unfold entry_step. unfold pstring at 1.
     rewrite ws_gap_end by (trivial; lia). cbv beta iota.
     destruct f as [|f]; [cbn [length] in Hl; lia|]. reflexivity.
-  - inversion Hw; subst. destruct fuel as [|f]; [lia|].
+  - inversion Hw; subst. cbn [tdepth] in Hd. destruct fuel as [|f]; [lia|].
     destruct (rentry_head _ _ _ Hr) as [t0 Et].
     rewrite entries_S_ne by (subst t; destruct g; discriminate).
     rewrite (entry_read n tv t) by (trivial; len).
-    apply IH; trivial. subst t. len.
+    apply IH; trivial; [lia|]. subst t. len.
 Qed.
 
 Lemma rfile_nonempty es t : rfile es t -> es <> [] -> t <> [].
@@ -346,9 +364,9 @@ Proof.
 Qed.
 
 (* C16 for every rendering *)
-Theorem parse_renders es t : rfile es t -> wf es -> es <> [] -> nonul t -> parse t = inr (norm es).
+Theorem parse_renders es t : rfile es t -> wf es -> tdepth es <= max_depth -> es <> [] -> nonul t -> parse t = inr (norm es).
 Proof.
-  intros Hr Hw He Hn. pose proof (rfile_nonempty _ _ Hr He) as Ht.
+  intros Hr Hw Hd He Hn. pose proof (rfile_nonempty _ _ Hr He) as Ht.
   unfold parse. destruct t as [|c t]; [congruence|]. cbv zeta.
   rewrite cut_nul_id by exact Hn. apply entries_read; trivial. lia.
 Qed.
@@ -467,13 +485,14 @@ Proof.
 Qed.
 
 (* B, explicit fuel, for the printer *)
-Theorem entries_print es fuel : wf es -> length (print es) + 2 <= fuel -> entries fuel (print es) [] = inr (norm es).
-Proof. intros Hw Hl. apply (entries_read es (print es) (print_r es [] (gap_nil _))); assumption. Qed.
+Theorem entries_print es fuel :
+  wf es -> tdepth es <= max_depth -> length (print es) + 2 <= fuel -> entries fuel (print es) [] = inr (norm es).
+Proof. intros Hw Hd Hl. apply (entries_read es (print es) (print_r es [] (gap_nil _))); assumption. Qed.
 
 (* C16: what is written is what is read *)
-Theorem parse_print es : wf es -> es <> [] -> parse (print es) = inr (norm es).
+Theorem parse_print es : wf es -> tdepth es <= max_depth -> es <> [] -> parse (print es) = inr (norm es).
 Proof.
-  intros Hw He. apply parse_renders; trivial.
+  intros Hw Hd He. apply parse_renders; trivial.
   - apply (print_r es [] (gap_nil _)).
   - apply nonul_print. exact Hw.
 Qed.
@@ -533,10 +552,27 @@ Proof.
         apply ri_cons; [apply gap_nil|apply gap_sp|]. apply ri_cons; [apply gap_sp|apply gap_nil|]. apply ri_nil. apply gap_nil.
       * apply rf_nil. apply gap_nil.
   - repeat constructor.
+  - apply Nat.leb_le. vm_compute. reflexivity.
   - discriminate.
   - vm_compute. repeat constructor.
 Qed.
 
 (* what [norm] builds is what a successful read builds: strictly sorted at every level *)
+Lemma addv_sorted tv : forall n kids, tsorted kids -> tsorted (addv n tv kids).
+Proof.
+  induction tv as [v|h s|l|es IH] using tval_ind'; intros n kids Hs.
+  - apply tsorted_upsert; trivial; intros; constructor.
+  - apply tsorted_upsert; trivial; intros; constructor.
+  - apply tsorted_upsert; trivial; intros; constructor.
+  - rewrite addv_obj. apply tsorted_upsert; trivial; intros. constructor.
+    pose proof (old_of_sorted n kids Hs) as Ho. generalize dependent (old_of n kids). clear Hs.
+    induction IH as [|[n' tv'] r Hx Hr IHr]; intros ks Hks; cbn [norm_into]; [exact Hks|].
+    apply IHr. apply Hx. exact Hks.
+Qed.
+
 Corollary norm_sorted es : wf es -> es <> [] -> tsorted (norm es).
-Proof. intros Hw He. apply (parse_result_sorted (print es)). apply parse_print; assumption. Qed.
+Proof.
+  intros _ _. unfold norm. generalize tsorted_nil. generalize (@nil (str * val)).
+  induction es as [|[n tv] es IH]; intros ks Hks; cbn [norm_into]; [exact Hks|].
+  apply IH. apply addv_sorted. exact Hks.
+Qed.
